@@ -21,12 +21,16 @@ import (
 // Unknown, which taints every multi-copy key (conservative).
 type Tracker struct {
 	mem      map[string]bool
+	memSeq   map[string]int // write sequence of the copy held by the memtable
+	newest   map[string]int // write sequence of the newest copy of a key anywhere
+	clock    int
 	memMaybe map[string]bool
 	tabs    map[uint64]*ttab
 	Unknown bool
 }
 
 type ttab struct {
+	seq      map[string]int // write sequence of the copy this table holds
 	keys     map[string]bool
 	poisoned map[string]bool
 	level    int
@@ -35,7 +39,7 @@ type ttab struct {
 
 // NewTracker returns an empty tracker.
 func NewTracker() *Tracker {
-	return &Tracker{mem: map[string]bool{}, tabs: map[uint64]*ttab{}}
+	return &Tracker{mem: map[string]bool{}, memSeq: map[string]int{}, newest: map[string]int{}, tabs: map[uint64]*ttab{}}
 }
 
 // BaseKey is the identity of a plain-API key (sentinel version) used by the tracker.
@@ -47,7 +51,13 @@ func IKey(cf byte, key []byte, ver uint64) string {
 }
 
 // Wrote records a write of base key k into the active memtable.
-func (t *Tracker) Wrote(k string) { t.mem[k] = true }
+func (t *Tracker) Wrote(k string) {
+	t.clock++
+	t.mem[k] = true
+	t.memSeq[k] = t.clock
+	t.newest[k] = t.clock
+	delete(t.memMaybe, k)
+}
 
 // Sync updates the tracker from the table layout after a maintenance step.
 // flushed=true means the step was rotate+flush (the memtable content became the new L0 table).
@@ -78,30 +88,39 @@ func (t *Tracker) Sync(layout []lsm.VerifTableInfo, flushed bool) {
 			t.Unknown = true
 		}
 		for _, ti := range added {
-			nt := &ttab{keys: map[string]bool{}, poisoned: map[string]bool{}, level: ti.Level, ingest: ti.Ingest}
+			nt := &ttab{keys: map[string]bool{}, seq: map[string]int{}, poisoned: map[string]bool{}, level: ti.Level, ingest: ti.Ingest}
 			for k := range t.memMaybe {
 				nt.keys[k] = false
+				nt.seq[k] = t.newest[k] // GC re-inserts the copy the engine currently serves; assumed to be the newest
 			}
 			for k := range t.mem {
 				nt.keys[k] = true
+				nt.seq[k] = t.memSeq[k]
 			}
 			t.tabs[ti.FID] = nt
 		}
 		t.mem = map[string]bool{}
+		t.memSeq = map[string]int{}
 		t.memMaybe = nil
 	case len(added) == 0 && len(gone) == 0:
 		// pure move (L0 -> ingest buffer) or nothing
 	case len(gone) == 0:
 		t.Unknown = true // tables appeared without inputs: not a step we placed
 		for _, ti := range added {
-			t.tabs[ti.FID] = &ttab{keys: map[string]bool{}, poisoned: map[string]bool{}, level: ti.Level, ingest: ti.Ingest}
+			t.tabs[ti.FID] = &ttab{keys: map[string]bool{}, seq: map[string]int{}, poisoned: map[string]bool{}, level: ti.Level, ingest: ti.Ingest}
 		}
 	default:
 		// compaction: outputs partition the union of the inputs by key range
 		union := map[string]int{}    // key -> number of ingest-buffer inputs holding it
 		present := map[string]bool{} // key -> in any input
 		poisoned := map[string]bool{}
+		maxSeq := map[string]int{}
 		for _, g := range gone {
+			for k, sq := range g.seq {
+				if sq > maxSeq[k] {
+					maxSeq[k] = sq
+				}
+			}
 			for k, sure := range g.keys {
 				present[k] = present[k] || sure
 				if g.ingest {
@@ -114,7 +133,7 @@ func (t *Tracker) Sync(layout []lsm.VerifTableInfo, flushed bool) {
 		}
 		outs := make([]*ttab, len(added))
 		for i, ti := range added {
-			outs[i] = &ttab{keys: map[string]bool{}, poisoned: map[string]bool{}, level: ti.Level, ingest: ti.Ingest}
+			outs[i] = &ttab{keys: map[string]bool{}, seq: map[string]int{}, poisoned: map[string]bool{}, level: ti.Level, ingest: ti.Ingest}
 			t.tabs[ti.FID] = outs[i]
 		}
 		for k := range present {
@@ -122,6 +141,7 @@ func (t *Tracker) Sync(layout []lsm.VerifTableInfo, flushed bool) {
 			for i, ti := range added {
 				if utils.CompareKeys([]byte(k), ti.Min) >= 0 && utils.CompareKeys([]byte(k), ti.Max) <= 0 {
 					outs[i].keys[k] = present[k]
+					outs[i].seq[k] = maxSeq[k] // a correct merge keeps the newest input copy
 					if union[k] >= 2 || poisoned[k] {
 						outs[i].poisoned[k] = true
 					}
@@ -200,7 +220,16 @@ func (t *Tracker) Tainted(k string) bool {
 			return true
 		}
 		if sure {
-			return false
+			// the copy served from this group must be the newest one anywhere: a partial drain
+			// can move a newer table into the main run while an older one stays in the ingest
+			// buffer, which is searched first (same listed finding)
+			best := 0
+			for _, tb := range tbs {
+				if tb.keys[k] && tb.seq[k] > best {
+					best = tb.seq[k]
+				}
+			}
+			return best < t.newest[k]
 		}
 	}
 	return false
